@@ -43,7 +43,9 @@ func (a absRange) Start() time.Time    { return a.start }
 func (a absRange) End() time.Time      { return a.end }
 func (a absRange) Dur() time.Duration  { return a.end.Sub(a.start) }
 func (a absRange) Step() time.Duration { return a.step }
-func (a absRange) String() string      { return fmt.Sprintf("%d/%d/%d", a.start.Unix(), a.end.Unix(), a.step) }
+func (a absRange) String() string {
+	return fmt.Sprintf("%d/%d/%d", a.start.Unix(), a.end.Unix(), a.step)
+}
 
 func (s c13Series) present(t int64) bool {
 	for _, iv := range s.Intervals {
